@@ -70,6 +70,11 @@ func vfChoice(name string, n int) int {
 func vfOpaque(name string, prefix string) string {
 	n := vfName(name)
 	l := int(vfCur.Vals[n+".len"])
+	// when the model fixes a rune count below the byte length, some characters are two-byte letters
+	if rc, ok := vfCur.Vals[n+".runes"]; ok && int(rc) < l && int(rc)*2 >= l {
+		two := l - int(rc)
+		return prefix + strings.Repeat("\u00e9", two) + strings.Repeat("x", l-2*two)
+	}
 	return prefix + strings.Repeat("x", l)
 }
 
